@@ -89,6 +89,11 @@ def fuzz_stage(ctx, quick, pool):
     cases += c08_fuzz.ecpoint_cases(ctx.rng)
     second = c08_fuzz.second_step_cases(ctx.rng, profiles, quick)
     second += c08_fuzz.cv_scheme_cases(ctx.rng, profiles)
+    second += c08_fuzz.cert_cases(ctx.rng, profiles)
+    second += c08_fuzz.pha_cases(ctx.rng, profiles)
+    alerts = c08_fuzz.alert_cases(ctx.rng, profiles, quick)
+    ctx.cov['alert_value_cases'] = len(alerts)
+    second += alerts
     for i, c in enumerate(cases):
         c08_fuzz.resolve_target(c, profiles)
         c.setdefault('mem', i % 6 == 0)
